@@ -163,6 +163,48 @@ func c14Scenarios(tier string) []*core.Scenario {
 				}
 			}})
 	}
+	// sequences: A and B are short statement SEQUENCES; B may begin with a mode directive (it then carries its own mode,
+	// so out(A;B) = out(A)||out(B) still has to hold), A may be a run of data directives, instructions or both
+	{
+		seqA := []string{"DB 0x11\nDB 0x22", "DW 1\nDW 2\nDW 3", "DD 1\nDD 2", "DB 1\nDW 2\nDD 3", "RESB 2\nRESB 3", "MOV AX,1\nMOV BX,2", "DB 1\nMOV AX,1\nDB 2\nDB 3", "HLT", "DB \"ab\"\nDB \"cd\",0",
+			"[BITS 32]\nMOV EAX,1\n[BITS 16]", "[BITS 32]\nDB 1\nDB 2\n[BITS 16]\nDB 3\nDB 4"}
+		seqB := []string{"[BITS 32]\nMOV EAX,1\nADD ECX,[EBX+4]", "[BITS 32]\nDB 9\nMOV AX,1", "[BITS 16]\nMOV EAX,1", "[BITS 32]\n[BITS 16]\nMOV AX,[BX+2]", "MOV AX,1\n[BITS 32]\nMOV AX,1\n[BITS 16]\nMOV AX,1",
+			"[BITS 32]\nPUSH 0x1234\nDB 1\nDB 2\n[BITS 16]\nPUSH 0x1234", "MOV EAX,[ESI]", "DB 5\nDB 6\n[BITS 32]\nMOV WORD [0x0ff0],1"}
+		prog := func(parts ...string) string {
+			var sb strings.Builder
+			for _, p := range parts {
+				for _, ln := range strings.Split(p, "\n") {
+					sb.WriteString(stmtLine(ln))
+				}
+				sb.WriteString("[BITS 16]\n") // every part is followed by a return to the initial mode (adds nothing to the output)
+			}
+			return sb.String()
+		}
+		scs = append(scs, &core.Scenario{
+			Name: "sequence_pairs", Bound: -1,
+			Rule:   fmt.Sprintf("all ordered pairs and all (A,B,A') triples of %d + %d statement sequences (runs of data directives, instructions, sequences that switch mode and switch back): out(A;B[;A']) must equal the concatenation of the parts assembled alone", len(seqA), len(seqB)),
+			Bounds: map[string]any{"sequences_a": seqA, "sequences_b": seqB},
+			Build: func(c *core.Chooser) *core.Case {
+				a := seqA[c.Pick("a", len(seqA))]
+				b := seqB[c.Pick("b", len(seqB))]
+				third := c.Pick("a2", len(seqA)+1)
+				parts := []string{a, b}
+				if third > 0 {
+					parts = append(parts, seqA[third-1])
+				}
+				srcs := []string{prog(parts...)}
+				for _, p := range parts {
+					srcs = append(srcs, prog(p))
+				}
+				srcs = append(srcs, prog())
+				return &core.Case{
+					Key:       "seq|" + strings.ReplaceAll(strings.Join(parts, " || "), "\n", " ; "),
+					Feat:      feat("mode", "seq", "a", a, "b", b),
+					FreshRefs: true, Srcs: srcs,
+					Judge: c14Judge(len(parts)),
+				}
+			}})
+	}
 	equDefs := "FOO EQU 16\nBASE EQU 0x00100000\nSMALL EQU 3\n"
 	equStmts := []string{"MOV AX,FOO+1", "MOV BX,FOO", "DW FOO-1,FOO", "MOV CX,[BX+FOO]", "ADD DX,FOO*2", "DB FOO", "MOV EDI,BASE+512", "DD BASE", "MOV AL,FOO%SMALL", "DB SMALL+SMALL,SMALL",
 		"MOV ESI,BASE", "SUB CX,FOO-SMALL", "MOV BYTE [FOO],SMALL", "DD BASE/FOO,BASE-1", "RESB SMALL", "MOV SI,SMALL*FOO+1"}
